@@ -126,6 +126,20 @@ CLAIMED = {
         "MAX_INCLUDE_DEPTH in the model (structural recursion on the depth budget).",
    technique="Coq proof of the scanner-progress and no-default-rule logic (certificates + lemma) + sanitizer correspondence for the rest (partial)",
    ref="5 (C03)"),
+ "C08": dict(
+   text="Coq theorems (Properties_C08.v, closed under the global context) about numeric_token, the function the "
+        "scanner model runs for the {integer} {integer64} {hex} {hex64} {float} rules, for every lexeme of the documented "
+        "shapes (unbounded digit count): a decimal/octal literal is accepted iff its positional value (sum of digit x "
+        "base^position; octal after a leading 0, rejected if it contains 8/9) lies in the 64-bit range, and then stored "
+        "with exactly that value - as a 32-bit int iff it fits and there is no L/LL suffix, else 64-bit; a hex literal is "
+        "accepted iff it spells at most 32 (with suffix 64) bits and the stored two's-complement pattern is that number; "
+        "hex tokens carry format HEX through the parser; a float literal is stored as atof(lexeme) and rejected iff that "
+        "is infinite. Tied to /repo by token- and setting-level correspondence on ~2000 boundary spellings per run and a "
+        "model-free exact-value oracle (Python integers / correctly rounded float()).",
+   note="PARTIAL for the float clause: that glibc strtod is correctly rounded is a libc contract in the trusted base, "
+        "validated differentially on every run, not proved. The link lexeme -> rule is C18.",
+   technique="Coq proof (unfolding the saturating/erroring digit folds against positional value, arithmetic by lia) + correspondence",
+   ref="5 (C08)"),
 }
 
 REASON_PENDING = "not decided in the committed state of this round: the Coq theorem for this property is not yet in the tree, and a property is never claimed on testing alone (DESIGN.md section 11)"
